@@ -96,6 +96,9 @@ func lossless(recs []record, allCuts bool) {
 	}
 	check(strings.NewReader(stream), nil)
 	check(&faultio.FragReader{Data: []byte(stream), MaxPerCall: 1}, []int{-1})
+	// the last byte arrives together with io.EOF; a call answers (0, nil)
+	check(&faultio.FragReader{Data: []byte(stream), MaxPerCall: 1, EOFWithData: true}, []int{-2})
+	check(&faultio.FragReader{Data: []byte(stream), ZeroEvery: true}, []int{-3})
 	// buffered readers of several sizes (a caller may well wrap the helper's pipe)
 	check(bufio.NewReaderSize(strings.NewReader(stream), 16), []int{-16})
 	check(bufio.NewReaderSize(&faultio.FragReader{Data: []byte(stream), MaxPerCall: 7}, 64), []int{-64})
